@@ -126,6 +126,16 @@ def stepC02 (H : Hierarchy) (line : String) : Hierarchy × Option String :=
       (H, some (" ".intercalate [bit (PytypeModel.Sem.CallableArity.arityMatch s n),
         bit (PytypeModel.Sem.CallableArity.cpyAccepts s n), bit (PytypeModel.Sem.CallableArity.Guard s)]))
     | _, _, _, _, _, _, _ => (H, some "bad-op")
+  | ["cargs", ds, es] =>
+    -- a declared Callable value against an expected Callable: argument lists as strings over i s f o b (`-` = empty)
+    let parse (w : String) : Option (List PytypeModel.Sem.CallableArity.Scal) :=
+      if w == "-" then some [] else w.toList.mapM fun c =>
+        match c with
+        | 'i' => some .int | 's' => some .str | 'f' => some .float | 'o' => some .object | 'b' => some .bool
+        | _ => none
+    match parse ds, parse es with
+    | some ds, some es => (H, some (bit (PytypeModel.Sem.CallableArity.matchArgs ds es)))
+    | _, _ => (H, some "bad-op")
   | _ => (H, some "bad-op")
 
 def main : IO Unit := Driver.run (⟨[]⟩ : Hierarchy) stepC02
